@@ -8,6 +8,12 @@ ENGINES = [
 ]
 NOT_APPLICABLE = {}
 CLAIMED = {
+ "C08": {
+  "engine": "tlc + csl-conform (spec/sys/CoinSelection.tla, spec/mc/MC_CoinSelection.tla, spec/trace/Trace_CoinSelection.tla; RNG hook rust/src/verif_hooks.rs)",
+  "technique": "L1 TLA+ model of random-improve + fee top-up with every gen_range a nondeterministic choice, model-checked exhaustively against L0 (Sound, NoDoubleCount, Bookkeeping); every model behaviour is replayed through the scriptable RNG hook and compared; independently the harness enumerates ALL draw scripts on the real code depth-first (stateless model checking of the implementation) for model-generated and random scenarios; each leaf is validated by TLC against L0 using the real inputs valued in the scenario's UTxO environment",
+  "text": "Exhaustive over all random outcomes for 4 offered UTxOs x 4 coin values x 4 output shapes on the model (about 860k states, F in {0,1}); on the real code all schedules of 180 (quick) scenarios incl. multi-asset and fee-sized amounts (about 17k schedules) plus 6000 replayed model behaviours. Not a proof for all UTxO sets.",
+  "note": "Trusted: TLC, the RNG hook (gen_range is the only RNG call), builder getters min_fee/get_total_output (cross-checked by C05/C06), harness logging (--selftest). Largest-first order is judged on the selected SET (top segment, minimal) because insertion order is not observable. Exploration capped at 1500-3000 schedules per scenario (noted when hit).",
+ },
  "C20": {
   "engine": "tlc + csl-conform (spec/lib/LedgerRules.tla, spec/sys/Deposits.tla, spec/mc/MC_Deposits.tla, spec/trace/Trace_Deposits.tla)",
   "technique": "ledger deposit/refund table for the 19 certificate kinds in TLA+; TLC model-checks helper table = builder table = ledger table over all histories of certificate/withdrawal/proposal additions and emits each state as a scenario; real bodies and builders are built from them; TLC parses the emitted body bytes with its own CBOR grammar, recomputes deposit and implicit input and validates the four recorded figures (helpers on constructed and decoded body, builder) and that the builder emits the same content",
